@@ -7,3 +7,6 @@ import RaftWal.Props.C05
 #print axioms RaftWal.C05.spec_delete_disjoint
 #print axioms RaftWal.C05.spec_store_rejected_unchanged
 #print axioms RaftWal.C05.spec_empty_accepts_any_start
+#print axioms RaftWal.C05.crash_spec_store_is_reference
+#print axioms RaftWal.C05.crash_spec_delHead_is_reference
+#print axioms RaftWal.C05.crash_spec_delTail_is_reference
